@@ -10,6 +10,8 @@ func init() {
 		hash = "internal/utils/hash.go"
 		rev  = "internal/controllers/objectsets/revision_reconciler.go"
 	)
+	const slicesImportOld = "\t\"fmt\"\n\n\t\"package-operator.run/internal/adapters\"\n"
+	const slicesImportNew = "\t\"fmt\"\n\t\"slices\"\n\n\t\"package-operator.run/internal/adapters\"\n"
 	const delayLoop = "\tfor _, objectSet := range objectSets {\n\t\tif objectSet.GetRevision() == 0 {\n\t\t\treturn ctrl.Result{}, nil\n\t\t}\n\t}\n"
 	const selection = "\tif len(objectSets) > 0 {\n" +
 		"\t\tmaybeCurrentObjectSet := objectSets[len(objectSets)-1]\n" +
@@ -55,6 +57,36 @@ func init() {
 		Mutant{Prop: "C07", Name: "r1-benign-classic-for-and-negated-test", File: osr, Benign: true,
 			Old: delayLoop,
 			New: "\tfor i := 0; i < len(objectSets); i++ {\n\t\tif objectSets[i].GetRevision() != 0 {\n\t\t\tcontinue\n\t\t}\n\t\treturn ctrl.Result{}, nil\n\t}\n"},
+
+		// the delay loop spelled with the standard library's search functions (corpus J4-1)
+		Mutant{Prop: "C07", Name: "r1-benign-delay-as-containsfunc", File: osr, Benign: true,
+			Old:  delayLoop,
+			New:  "\tif slices.ContainsFunc(objectSets, func(objectSet adapters.ObjectSetAccessor) bool {\n\t\treturn objectSet.GetRevision() == 0\n\t}) {\n\t\treturn ctrl.Result{}, nil\n\t}\n",
+			More: []Edit{{File: osr, Old: slicesImportOld, New: slicesImportNew}}},
+		Mutant{Prop: "C07", Name: "r1-benign-delay-as-indexfunc", File: osr, Benign: true,
+			Old:  delayLoop,
+			New:  "\tif idx := slices.IndexFunc(objectSets, func(objectSet adapters.ObjectSetAccessor) bool {\n\t\tif objectSet.GetRevision() != 0 {\n\t\t\treturn false\n\t\t}\n\t\treturn true\n\t}); idx >= 0 {\n\t\treturn ctrl.Result{}, nil\n\t}\n",
+			More: []Edit{{File: osr, Old: slicesImportOld, New: slicesImportNew}}},
+		Mutant{Prop: "C07", Name: "r1-containsfunc-tests-revision-one", File: osr,
+			Old:    delayLoop,
+			New:    "\tif slices.ContainsFunc(objectSets, func(objectSet adapters.ObjectSetAccessor) bool {\n\t\treturn objectSet.GetRevision() == 1\n\t}) {\n\t\treturn ctrl.Result{}, nil\n\t}\n",
+			More:   []Edit{{File: osr, Old: slicesImportOld, New: slicesImportNew}},
+			Expect: []string{"C07.R1@"}},
+		Mutant{Prop: "C07", Name: "r1-containsfunc-result-ignored", File: osr,
+			Old:    delayLoop,
+			New:    "\t_ = slices.ContainsFunc(objectSets, func(objectSet adapters.ObjectSetAccessor) bool {\n\t\treturn objectSet.GetRevision() == 0\n\t})\n",
+			More:   []Edit{{File: osr, Old: slicesImportOld, New: slicesImportNew}},
+			Expect: []string{"C07.R1@"}},
+		Mutant{Prop: "C07", Name: "r1-containsfunc-skips-archived", File: osr,
+			Old:    delayLoop,
+			New:    "\tif slices.ContainsFunc(objectSets, func(objectSet adapters.ObjectSetAccessor) bool {\n\t\tif objectSet.IsArchived() {\n\t\t\treturn false\n\t\t}\n\t\treturn objectSet.GetRevision() == 0\n\t}) {\n\t\treturn ctrl.Result{}, nil\n\t}\n",
+			More:   []Edit{{File: osr, Old: slicesImportOld, New: slicesImportNew}},
+			Expect: []string{"C07.R1@"}},
+		Mutant{Prop: "C07", Name: "r1-indexfunc-ignores-first-element", File: osr,
+			Old:    delayLoop,
+			New:    "\tif idx := slices.IndexFunc(objectSets, func(objectSet adapters.ObjectSetAccessor) bool {\n\t\treturn objectSet.GetRevision() == 0\n\t}); idx > 0 {\n\t\treturn ctrl.Result{}, nil\n\t}\n",
+			More:   []Edit{{File: osr, Old: slicesImportOld, New: slicesImportNew}},
+			Expect: []string{"C07.R1@"}},
 
 		// ---- R2: current = newest with matching hash, previous = all others
 		Mutant{Prop: "C07", Name: "r2-current-on-hash-mismatch", File: osr,
@@ -177,6 +209,30 @@ func init() {
 		Mutant{Prop: "C07", Name: "r4-benign-inline-latest", File: nrr, Benign: true,
 			Old: "\tlatestRevisionNumber := latestRevisionNumber(prevObjectSets)\n",
 			New: "\tvar latestRevisionNumber int64\n\tif len(prevObjectSets) > 0 {\n\t\tlatestRevisionNumber = prevObjectSets[len(prevObjectSets)-1].GetRevision()\n\t}\n"},
+
+		// the five-way && extracted into a boolean helper with early returns (corpus J4-3): the
+		// normaliser's tail duplication leaves one dead copy of the reuse branch per `return false`
+		Mutant{Prop: "C07", Name: "r4-benign-reuse-test-as-early-return-helper", File: nrr, Benign: true,
+			Old: "\tif !conflictingObjectSet.IsArchived() &&\n\t\tconflictingObjectSet.GetRevision() >= latestRevisionNumber &&\n\t\tcontrollerRef != nil &&\n\t\tcontrollerRef.UID == objectDeployment.ClientObject().GetUID() &&\n\t\tequality.Semantic.DeepEqual(newObjectSet.GetTemplateSpec(), conflictingObjectSet.GetTemplateSpec()) {\n",
+			New: "\t_ = controllerRef\n\tif isOwnUpToDate(conflictingObjectSet, newObjectSet, latestRevisionNumber, objectDeployment) {\n",
+			More: []Edit{{File: nrr, Old: "\n// Creates and returns a new objectset in memory with the correct objectset template,\n",
+				New: "\nfunc isOwnUpToDate(conflicting, desired adapters.ObjectSetAccessor, latest int64, dep adapters.ObjectDeploymentAccessor) bool {\n" +
+					"\tref := metav1.GetControllerOf(conflicting.ClientObject())\n\tif conflicting.IsArchived() {\n\t\treturn false\n\t}\n" +
+					"\tif conflicting.GetRevision() < latest {\n\t\treturn false\n\t}\n\tif ref == nil {\n\t\treturn false\n\t}\n" +
+					"\tif ref.UID != dep.ClientObject().GetUID() {\n\t\treturn false\n\t}\n" +
+					"\treturn equality.Semantic.DeepEqual(desired.GetTemplateSpec(), conflicting.GetTemplateSpec())\n}\n" +
+					"\n// Creates and returns a new objectset in memory with the correct objectset template,\n"}}},
+		Mutant{Prop: "C07", Name: "r4-early-return-helper-accepts-archived", File: nrr,
+			Old: "\tif !conflictingObjectSet.IsArchived() &&\n\t\tconflictingObjectSet.GetRevision() >= latestRevisionNumber &&\n\t\tcontrollerRef != nil &&\n\t\tcontrollerRef.UID == objectDeployment.ClientObject().GetUID() &&\n\t\tequality.Semantic.DeepEqual(newObjectSet.GetTemplateSpec(), conflictingObjectSet.GetTemplateSpec()) {\n",
+			New: "\t_ = controllerRef\n\tif isOwnUpToDate(conflictingObjectSet, newObjectSet, latestRevisionNumber, objectDeployment) {\n",
+			More: []Edit{{File: nrr, Old: "\n// Creates and returns a new objectset in memory with the correct objectset template,\n",
+				New: "\nfunc isOwnUpToDate(conflicting, desired adapters.ObjectSetAccessor, latest int64, dep adapters.ObjectDeploymentAccessor) bool {\n" +
+					"\tref := metav1.GetControllerOf(conflicting.ClientObject())\n\tif conflicting.IsArchived() {\n\t\treturn true\n\t}\n" +
+					"\tif conflicting.GetRevision() < latest {\n\t\treturn false\n\t}\n\tif ref == nil {\n\t\treturn false\n\t}\n" +
+					"\tif ref.UID != dep.ClientObject().GetUID() {\n\t\treturn false\n\t}\n" +
+					"\treturn equality.Semantic.DeepEqual(desired.GetTemplateSpec(), conflicting.GetTemplateSpec())\n}\n" +
+					"\n// Creates and returns a new objectset in memory with the correct objectset template,\n"}},
+			Expect: []string{"C07.R4@"}},
 
 		// ---- R5: hash
 		Mutant{Prop: "C07", Name: "r5-sortkeys-false", File: hash,
